@@ -1,5 +1,6 @@
 CONSTANTS
   Top = "A"
+  ShadowRebuilt = TRUE
   Sub = {"B", "C"}
   Res = {"p1", "p2"}
   TopRes = {"p1", "p2"}
